@@ -404,6 +404,17 @@ func checkC09(rep *core.Report) {
 		}
 		fatalAt := func(n int64) (bool, token.Pos) {
 			valOf := func(v ssa.Value) (int64, bool) {
+				// int(h.Length) and the like: a widening conversion keeps the value
+				for {
+					if cv, ok := v.(*ssa.Convert); ok {
+						sz := types.SizesFor("gc", "amd64")
+						if sz.Sizeof(cv.Type()) >= sz.Sizeof(cv.X.Type()) {
+							v = cv.X
+							continue
+						}
+					}
+					break
+				}
 				if ld, ok := v.(*ssa.UnOp); ok && ld.Op == token.MUL {
 					if fa, ok := ld.X.(*ssa.FieldAddr); ok {
 						if _, fld, _ := core.FieldOf(fa); fld != nil && fld.Name() == "Length" {
